@@ -83,7 +83,7 @@ func runC16(ctx *core.Ctx) {
 	subC16.Run(ctx, N*N, func(i int) sqrtCase {
 		return sqrtCase{U: elemIn{alpha.CanonLimbs(big.NewInt(int64(i / N)))}, V: elemIn{alpha.CanonLimbs(big.NewInt(int64(i % N)))}, Alias: i % 3}
 	})
-	forms := fieldForms(ctx.Quick())
+	forms := fieldForms(smoke(ctx))
 	nf := len(forms)
 	subC16.Run(ctx, nf*nf*3, func(i int) sqrtCase {
 		al := i % 3
